@@ -458,6 +458,9 @@ def evaluate(c, cpp, orc, res=None):
         res.count("interleaving-bound measured (Z_2 and Z_3)")
         res.count("interleaving eps=%d/%d: sparse and Rips diagrams %s" % (c["eps"][0], c["eps"][1],
                   "differ (within the bound)" if flagsd["inter"] == "1x" else "coincide"))
+        if len(parts) >= 3 and parts[2].startswith("T "):
+            res.count("interleaving: %s/8 of the allowed excess 1/(1-eps)-1 is needed" % parts[2].split()[1])
+            parts = parts[:2] + parts[3:]
         if len(parts) >= 4 and parts[2].split("sparse:")[1] != parts[3].split("sparse:")[1]:
             res.count("barcode differs between Z_2 and Z_3")
     return None
